@@ -158,13 +158,21 @@ Proof.
     apply negb_true_iff in A. apply negb_true_iff in B. cbn [app skip_line]. rewrite A, B. cbn [orb]. apply IH. exact H2.
 Qed.
 
-Lemma long_comment_body : forall b st, forallb (fun c => negb (c =? 42) && negb (c =? 0)) b = true ->
+Lemma long_comment_body : forall b st, forallb (fun c => negb (c =? 0)) b = true -> no_close b = true ->
   long_comment (b ++ 42 :: 47 :: st) = Some st.
 Proof.
-  induction b as [|c b IH]; intros st H.
+  induction b as [|c b IH]; intros st H N.
   - reflexivity.
-  - cbn [forallb] in H. apply andb_true_iff in H. destruct H as [H1 H2]. apply andb_true_iff in H1. destruct H1 as [A B].
-    apply negb_true_iff in A. apply negb_true_iff in B. cbn [app long_comment]. rewrite A, B. apply IH. exact H2.
+  - cbn [forallb] in H. apply andb_true_iff in H. destruct H as [A H2]. apply negb_true_iff in A.
+    cbn [app long_comment]. rewrite A.
+    destruct b as [|d b'].
+    + cbn [app]. destruct (c =? 42); reflexivity.
+    + cbn [no_close] in N. apply andb_true_iff in N. destruct N as [N1 N2].
+      pose proof H2 as H2'. cbn [forallb] in H2'. apply andb_true_iff in H2'. destruct H2' as [D _]. apply negb_true_iff in D.
+      destruct (c =? 42) eqn:E.
+      * cbn [app]. rewrite D. cbn [andb negb] in N1. apply negb_true_iff in N1. rewrite N1.
+        change (d :: b' ++ 42 :: 47 :: st) with ((d :: b') ++ 42 :: 47 :: st). apply IH; assumption.
+      * apply IH; assumption.
 Qed.
 
 Lemma blank_step : forall c st, (is_blank c || is_newline c) = true -> lex_step (c :: st) = LSkip st.
@@ -186,7 +194,8 @@ Proof.
   - cbn [app]. rewrite <- app_assoc. cbn [app].
     eapply L_skip; [|exact H].
     cbn [lex_step]. change (47 =? 0) with false. change (is_blank 47 || is_newline 47) with false. change (47 =? 47) with true.
-    change (42 =? 47) with false. change (42 =? 42) with true. cbv iota. rewrite (long_comment_body b st Hg). reflexivity.
+    change (42 =? 47) with false. change (42 =? 42) with true. cbv iota.
+    apply andb_true_iff in Hg. destruct Hg as [Hg1 Hg2]. rewrite (long_comment_body b st Hg1 Hg2). reflexivity.
 Qed.
 
 Lemma gaps_lexes : forall gs st l, forallb wf_gap_item gs = true -> lexes st l -> lexes (gaps_bytes gs ++ st) l.
